@@ -412,6 +412,58 @@ pub fn run(opts: &Opts) -> Report {
             rep.sample(json!({"text": text, "parent": [1, 3], "offset": ["e-2", "b2"], "against": "annotation (relative)"}));
         }
     }
+    complex_relative(&mut rep, &mut rng, if opts.thorough() { 4000 } else { 600 });
     rep.extra.insert("max_text_len".into(), json!(maxlen));
     rep
+}
+
+/// complex selectors whose members are annotation selectors with offsets, on annotations created one after the other
+/// (consecutive handles: what the internal range-compression of sub-selectors looks for): the annotation selects, per
+/// member, exactly the addressed part of that member's annotation
+fn complex_relative(rep: &mut Report, rng: &mut Rng, rounds: usize) {
+    let text: String = (0..14).map(|i| ALPHABET[i % ALPHABET.len()]).collect();
+    let bases: [(usize, usize); 5] = [(0, 3), (3, 5), (5, 9), (9, 12), (12, 14)];
+    for round in 0..rounds {
+        let mut w = World::new(&text);
+        // the base annotations; now and then one more in between so that handles are not consecutive
+        let mut ids: Vec<(String, (usize, usize))> = vec![];
+        for (k, (b, e)) in bases.iter().enumerate() {
+            if round % 5 == 4 && k == 2 { let _ = w.annotate(SelectorBuilder::resourceselector("r")); }
+            let (id, r) = w.annotate(SelectorBuilder::textselector("r", Offset::simple(*b, *e)));
+            if r != Ok(Some((*b, *e))) { rep.fail("oracle", "complex-relative/base", vec![format!("text={:?} base {} {}", text, b, e)], "accepted", &res_str(&r)); return; }
+            ids.push((id, (*b, *e)));
+        }
+        let i = rng.below(ids.len() - 1);
+        let k = (2 + rng.below(3)).min(ids.len() - i);
+        let kind = rng.below(3);
+        let mut members = vec![];
+        let mut want: Option<Vec<(usize, usize)>> = Some(vec![]);
+        let mut desc = vec![];
+        for j in 0..k {
+            let (pid, (pb, pe)) = ids[i + j].clone();
+            let pn = pe - pb;
+            let menu = cursors(pn, 1);
+            let (c1, c2) = if rng.chance(45) { (Cursor::BeginAligned(0), Cursor::EndAligned(0)) } else if rng.chance(50) { (Cursor::BeginAligned(0), *rng.pick(&menu)) } else { (*rng.pick(&menu), *rng.pick(&menu)) };
+            match (oracle(&c1, &c2, pn), &mut want) { (Some((b, e)), Some(v)) => v.push((pb + b, pb + e)), _ => want = None }
+            desc.push(format!("{}[{}..{}] {} {}", pid, pb, pe, cur_str(&c1), cur_str(&c2)));
+            members.push(SelectorBuilder::annotationselector(pid, Some(Offset::new(c1, c2))));
+        }
+        let target = match kind { 0 => SelectorBuilder::multiselector(members), 1 => SelectorBuilder::compositeselector(members), _ => SelectorBuilder::directionalselector(members) };
+        let ctx = vec![format!("text={:?} {} of annotation selectors with offsets: {}", text, ["MultiSelector", "CompositeSelector", "DirectionalSelector"][kind], desc.join("; "))];
+        rep.case(Some(&ctx[0]));
+        rep.count("complex-relative");
+        let id = w.fresh();
+        let idc = id.clone();
+        let store = &mut w.store;
+        let got = guarded(std::panic::AssertUnwindSafe(|| match store.annotate(AnnotationBuilder::new().with_id(idc.clone()).with_target(target)) {
+            Ok(_) => { let a = store.annotation(idc.as_str()).expect("just added"); let mut v: Vec<(usize, usize)> = a.textselections().map(|t| (t.begin(), t.end())).collect(); v.sort(); Some(v) }
+            Err(_) => None,
+        }));
+        let mut want_sorted = want.clone();
+        if let Some(v) = &mut want_sorted { v.sort(); v.dedup(); }
+        let got_d = got.clone().map(|g| g.map(|mut v| { v.dedup(); v }));
+        if got_d != Ok(want_sorted.clone()) {
+            rep.fail(if got.is_err() { "panic" } else { "oracle" }, &format!("complex-relative/{}", if want.is_none() { "invalid-member-accepted" } else if matches!(got, Ok(None)) { "valid-refused" } else { "selections-differ" }), ctx, &format!("{:?}", want_sorted), &format!("{:?}", got));
+        }
+    }
 }
